@@ -9,6 +9,10 @@ PROP_UNITS = {
             'undecided': ['op-assign forms and primitive-operand forwarding macros (helper_macros.rs) are only '
                           'covered by the bounded Kani group int_forms where registered',
                           'FBig operator vs Context method at the same precision: only float_mul / float_add_ops']},
+    # C05: base changes must return normalised values (== follows the value); C09: !, &, |, ^ of IBig go through
+    # add_one / sub_one of the magnitude (unit int_add_ops)
+    'C05': {'verus': ['float_convert_base']},
+    'C09': {'verus': ['int_add_ops']},
     # C08: decode is proved complete by Kani (base_bit); float_from_prim composes it
     'C08': {'kani': ['base_bit'],
             'undecided': ['float parser and printer (str / core::fmt)', 'convert_base (ln/exp at doubled precision, f32 '
